@@ -40,6 +40,12 @@ def run(ctx):
         args = ["resetsIdOnEmpty=" + facts.get("resetsIdOnEmpty", "unknown")]
         c = K.correspondence(ctx, "C15", args)
         corrs.append(("C15", args, c))
+        # genuinely concurrent run of the real guard; its event log must be a trace of the model
+        targs = args + ["mode=trace"]
+        ct = K.correspondence(ctx, "C15s", targs, drv_domain="C15")
+        corrs.append(("C15s", targs, ct))
+        ctx.cov["trace_inclusion"] = {"domain": "C15s", "log_lines": len(ct.ops), "rounds": len(ct.cases),
+                                      "lines_rejected_by_model": len(ct.mismatch), "event_histogram": ct.op_hist}
     else:
         ctx.violation("harness does not build against /repo", {"correspondence": "C15", "log": getattr(ctx, "hx_log", "")[-2000:]},
                       tag="build", found_input=False)
